@@ -58,6 +58,7 @@ REQUIRED_BUCKETS = ["params:ctor-window", "params:top-level", "params:nested", "
                     "entry:scenario.draw", "entry:draw_scenario", "entry:renderer-params", "entry:network+draw_list",
                     "entry:per-object", "entry:list-of-params", "params:style-values", "outside-quantifier", "anchor:center", "reading:mid", "border-vertices", "light-labels", "set-based-later-steps", "hidden-by-guard", "icon", "history"]
 WORKERS = {"quick": 1, "thorough": 8}
+EXTRA_MODULES = ["CRProps.T19"]      # translator tie: Gen.SrcC19 (regenerated from the repo every run by harness/translate/src_c19.py) = hand model
 
 PRIV = "_BaseParam__initialized"
 _SCHEMA = None
